@@ -98,7 +98,8 @@ class PDUv0Rx(codec.Envelope):
 		codec.Envelope.__init__(self, *args, **kw)
 
 		# Field 'soft-bits' is either 148 (GMSK) or 444 (8-PSK) octets long
-		self.STRUCT[-2].get_len = lambda _, data: 444 if len(data) > 148 else 148
+		# (optionally followed by two legacy padding octets)
+		self.STRUCT[-2].get_len = lambda _, data: 444 if len(data) >= 444 else 148
 
 class PDUv0Tx(codec.Envelope):
 	STRUCT = (
